@@ -293,6 +293,10 @@ func streamEngine(seed uint64, n int, driver, corpus, dump, variant string) (*Su
 		if err != nil {
 			return nil, err
 		}
+		if impls[i].CtxLeak != "" {
+			// direct oracle (C12): a callback's ctx.Get differed from exactly what this call passed
+			sum.addViolation("C12", Mismatch{Case: lines[i], Impl: implLine, What: fmt.Sprintf("a callback's context differs from the values passed to this call (%v, formatter mode %q): %s", c.CtxValues(), c.Fmt, impls[i].CtxLeak)})
+		}
 		mv, err := parseRes(modelLine)
 		if err != nil {
 			sum.ModelErrors++
